@@ -10,6 +10,7 @@ import Driver.Downloader
 import Driver.LastGER
 import Driver.Oracle
 import Driver.Aggsender
+import Driver.CertCodec
 open Driver Aggkit
 
 def keccakStep (_ : Unit) (ws : List String) : Unit × String :=
@@ -33,5 +34,6 @@ def main (args : List String) : IO UInt32 := do
   | ["gersync"] => loop inp Driver.LastGER.step {}; return 0
   | ["oracle"] => loop inp Driver.Oracle.step {}; return 0
   | ["aggsender"] => loop inp Driver.Aggsender.step {}; return 0
+  | ["certcodec"] => loop inp Driver.CertCodec.step (); return 0
   | ["tree"] => loop inp Driver.Tree.step (Aggkit.TM.init Driver.Tree.H Driver.Tree.N); return 0
   | _ => IO.eprintln "usage: aggkit_driver <scenario>"; return 2
